@@ -6,7 +6,7 @@ cd $WT || exit 2
 export CARGO_TARGET_DIR=$WT/target CARGO_NET_OFFLINE=true
 LOG=$WT/confirm.log
 : > $LOG
-git checkout -q -- . 2>/dev/null
+git reset -q --hard HEAD 2>/dev/null
 git clean -fdq -e SEED -e target -e 'confirm*' 2>/dev/null
 git apply SEED/patch.diff || { echo "PATCH_APPLY_FAILED" >> $LOG; exit 1; }
 git apply SEED/demo.diff || { echo "DEMO_APPLY_FAILED" >> $LOG; exit 1; }
